@@ -59,6 +59,7 @@ theorem built_of_links {s5 s6 : TH} {spec : LS} {R : Nat} {nodes : List AssocDec
   steps := stepsOf_afterSteps h5 hF
   links := hl
   mirrored := hm
+  vars_wf := by rw [hF.spec]; exact h5.spec_vars_wf
 
 variable (spec : LS) (R : Nat)
 
